@@ -225,7 +225,55 @@ func c12Case(c *core.Ctx) *core.Result {
 	_ = anySetter
 	n := r.Range(3, tierN(c.Tier, 25, 60))
 	okCalls := 0
+	hfTypes12 := []document.HeaderFooterType{document.HeaderFooterTypeDefault, document.HeaderFooterTypeFirst, document.HeaderFooterTypeEven}
 	for i := 0; i < n && len(res.Findings) == 0; i++ {
+		// calls that name no page attribute (content, headers/footers) must leave every attribute as it was
+		if r.Chance(1, 4) {
+			var nop string
+			cg := core.Catch(func() {
+				switch r.Intn(6) {
+				case 0:
+					nop = "AddParagraph"
+					d.AddParagraph("noise")
+				case 1:
+					nop = "AddHeader"
+					d.AddHeader(hfTypes12[r.Intn(3)], "h")
+				case 2:
+					nop = "AddFooterWithPageNumber"
+					d.AddFooterWithPageNumber(hfTypes12[r.Intn(3)], "f", true)
+				case 3:
+					nop = "SetDifferentFirstPage"
+					d.SetDifferentFirstPage(r.Bool())
+				case 4:
+					nop = "AddTable"
+					d.AddTable(&document.TableConfig{Rows: 1, Cols: 2, Width: 4000})
+				case 5:
+					nop = "AddPageBreak"
+					d.AddPageBreak()
+				}
+			})
+			log = append(log, nop)
+			if cg != nil {
+				res.Add(nop+"/"+cg.Key(), nop+" panicked: "+cg.Msg, cg.Stack)
+				break
+			}
+			res.Count("unrelated_calls", 1)
+			var g0 *document.PageSettings
+			if cg := core.Catch(func() { g0 = d.GetPageSettings() }); cg != nil {
+				res.Add("GetPageSettings/"+cg.Key(), "GetPageSettings panicked: "+cg.Msg, cg.Stack)
+				break
+			}
+			if k, txt := rec.compare(g0); k != "" {
+				res.Add("after-unrelated:"+nop+"/"+k, fmt.Sprintf("after %s: %s", nop, txt), "calls: "+strings.Join(tail(log, 12), " "))
+				break
+			}
+			if b, serr := d.ToBytes(); serr == nil && r.Bool() {
+				if k, txt := rec.compareSaved(b, !rec.Fresh); k != "" {
+					res.Add("saved-after-unrelated:"+nop+"/"+k, fmt.Sprintf("after %s: %s", nop, txt), "calls: "+strings.Join(tail(log, 12), " "))
+					break
+				}
+			}
+		}
 		prev := rec
 		var op, argc string
 		var err error
